@@ -39,6 +39,7 @@ def run(ctx):
     S1 = rep.rule('C14.R4', 'asset dependencies recorded before the nested load (shared with C14)', floor=4)
     S2 = rep.rule('C06.R2', 'only successful reloads write (shared with C06)', floor=6)
     S3 = rep.rule('C09.R3', 'failed reload leaves the graph untouched (shared with C09)', floor=2)
+    S4 = rep.rule('C10.R8', 'AssetMap::insert runs on_insert (the registration) whenever the entry was stored, and only then (shared with C10)', floor=2)
     for cfg, F in ctx.hr_cfgs():
         r1(R1, cfg, F)
         r2(R2, cfg, F)
@@ -51,7 +52,9 @@ def run(ctx):
         record_before_nested_load(S1, cfg, F)
         only_successful_reloads_write(S2, cfg, F)
         failed_reload_untouched(S3, cfg, F)
-        for r in (R1, R2, R3, R4, R5, R6, S1, S2, S3):
+        from c10 import r8 as on_insert_iff_stored
+        on_insert_iff_stored(S4, cfg, F)
+        for r in (R1, R2, R3, R4, R5, R6, S1, S2, S3, S4):
             r.finish_cfg(cfg)
 
 
@@ -103,36 +106,59 @@ def r1(R1, cfg, F):
 
 
 def r2(R2, cfg, F):
+    """registration = (a) load_and_record hands back the dependencies recorded by this very load whenever the type
+    is hot-reloaded and the cache has a reloader, (b) RawCache::add_asset registers them from the on_insert callback
+    of AssetMap::insert, for this (id, typ), whenever there are dependencies and a reloader, (c) an owned load
+    registers its node only when the load succeeded."""
+    deep, thru = common.deep_path, common.through_closure
     b = F.body('asset::load_and_record')
     if not b:
         R2.missing(cfg, 'asset::load_and_record')
         return
     rc = [c for c in b.calls() if c.callee and c.callee.best == REC + 'record']
-    aa = [c for c in b.calls() if c.callee and c.callee.best in ('hot_reloading::HotReloader::add_asset', 'hot_reloading::HotReloader::add_owned_asset')]
-    ok = len(rc) == 1 and len(aa) >= 1
-    why = 'shape'
+    ok = len(rc) == 1
+    why = 'shape: exactly one records::record call expected'
     if ok:
-        okc = [c for c in b.calls() if c.callee and c.callee.best == 'std::result::Result::<T, E>::is_ok'
-               and (b.access_path(c.args[0]) or [])[:2] == ['call@bb%d' % rc[0].bb, '0']]
-        ok = len(okc) == 1
-        why = 'registration is not guarded by entry.is_ok()'
+        rc = rc[0]
+        me = 'call@bb%d' % rc.bb
+        g = common.guards_of(b, rc.bb)
+        tests = sorted((lab != 'sw:0', t[0], tuple(deep(b, t[1]) or ())) for _, _, lab, t in g)
+        roots = {}
+        for c in b.calls():
+            if c.callee:
+                roots['call@bb%d' % c.bb] = c.callee.best
+        names = sorted((truth, kind, roots.get(ap[0], ap[0]) if ap else None) for truth, kind, ap in tests)
+        ok = names == [(True, 'discr', "anycache::AnyCache::<'a>::reloader"), (True, 'val', 'key::Type::is_hot_reloaded')] \
+            and common.inevitable(b, g, rc.bb) and deep(b, rc.args[0]) == [[k for k, v in roots.items() if v.endswith('::reloader')][0], 'as:Some', '0']
+        why = 'the load is not recorded exactly when the type is hot-reloaded and the cache has a reloader (conditions found: %s)' % names
         if ok:
-            sw = [bb for bb, t in b.terms() if t['k'] == 'switch' and b.access_path(t['discr']) == ['call@bb%d' % okc[0].bb]]
-            true = [d for d, lab in b.edges(sw[0]) if lab != 'sw:0'] if len(sw) == 1 else []
-            ok = len(true) == 1 and all(x.bb not in b.reachable([0], removed_edges=[(sw[0], true[0])]) for x in aa) \
-                and not (b.reachable(true, removed_blocks=[x.bb for x in aa]) & set(b.return_blocks()))
-            why = 'a successful load can return without registering, or a failed one registers'
-            for reg in (aa if ok else []):
-                a = [b.access_path(x) for x in reg.args]
-                ok = ok and a[1] == ['arg2'] and a[2] == ['call@bb%d' % rc[0].bb, '1'] and a[3] == ['arg3']
-                ds = b.downcast_source(reg.args[0])
-                ok = ok and bool(ds) and ds[1] == 'Some'
-                why = '%s receives %s (want id, deps recorded by this load, typ)' % (reg.callee.name, a[1:])
-            if ok:
-                # the returned entry is the one produced by that record() call
-                rets = [s for _, _, s in b.assigns() if s['place']['l'] == 0]
-                ok = ok and any((b.access_path(s['rv']['op']) or [])[:2] == ['call@bb%d' % rc[0].bb, '0'] for s in rets if s['rv']['k'] == 'use')
-    R2.check(ok, cfg, b.path, 'Ok-load-registers-its-own-deps', 'load_and_record: %s' % why, b.loc())
+            # every returned pair is (entry of this record, Some(deps of this record)) or (plain load, None)
+            rets = [s for _, _, s in b.assigns() if s['place']['l'] == 0 and not s['place']['p']]
+            n_rec = n_plain = 0
+            for s in rets:
+                if s['rv']['k'] != 'aggregate' or len(s['rv'].get('ops') or []) != 2:
+                    ok = False
+                    why = 'unrecognised return value'
+                    break
+                e, d = s['rv']['ops']
+                pe = deep(b, e)
+                if pe == [me, '0']:
+                    da = [a for a in agg_stmts(b, d) if a['rv'].get('variant_name') == 'Some']
+                    if len(da) == 1 and deep(b, da[0]['rv']['ops'][0]) == [me, '1']:
+                        n_rec += 1
+                    else:
+                        ok = False
+                        why = 'the entry of a recorded load is not returned with Some(the dependencies recorded by that load)'
+                else:
+                    cr = b.call_roots(d)
+                    none = [a for a in agg_stmts(b, d) if a['rv'].get('variant_name') == 'None']
+                    if (len(cr) == 1 and cr[0].callee and cr[0].callee.best.endswith('as std::default::Default>::default')) or none:
+                        n_plain += 1
+                    else:
+                        ok = False
+                        why = 'an unrecorded load must return no dependencies (None): a type that is not hot-reloaded would be registered'
+            ok = ok and n_rec == 1
+    R2.check(ok, cfg, b.path, 'recorded-load-returns-its-own-deps', 'load_and_record: %s' % why, b.loc())
     # the recorded closure is the load of (cache, id)
     cb = F.body('asset::load_and_record::{closure#0}')
     if cb:
@@ -140,6 +166,86 @@ def r2(R2, cfg, F):
         R2.check(len(ind) == 1 and ind[0].dest['l'] == 0, cfg, cb.path, 'recorded-closure-is-the-load', 'the closure given to record must be exactly the load call', cb.loc())
     else:
         R2.missing(cfg, 'load_and_record::{closure#0}')
+    # (b) the cached load registers from the on_insert callback
+    pb = F.body('anycache::RawCache::add_asset')
+    regs = F.calls_to(r'^hot_reloading::HotReloader::add_asset$')
+    if not pb or len(regs) != 1:
+        R2.unrecognised(cfg, 'anycache::RawCache::add_asset', 'one call of HotReloader::add_asset in the crate', pb.loc() if pb else None)
+    else:
+        reg = regs[0]
+        cb = reg.body
+        ld = [c for c in pb.calls() if c.callee and c.callee.best == 'asset::load_and_record']
+        ins = [c for c in pb.calls() if c.callee and c.callee.defp == 'anycache::AssetMap::insert']
+        ok = cb.kind == 'Closure' and cb.root == pb.path and len(ld) == 1 and len(ins) == 1
+        why = 'the registration is not in a closure of RawCache::add_asset'
+        if ok:
+            ld, ins = ld[0], ins[0]
+            me = 'call@bb%d' % ld.bb
+            cs = common.closure_sites(pb, cb.path)
+            ok = len(cs) == 1 and len(ins.args) == 3 and pb.access_path(ins.args[2]) == ['agg@bb%d.%d' % (cs[0][0], cs[0][1])]
+            why = 'the registering closure is not the on_insert argument of AssetMap::insert'
+        if ok:
+            g = common.guards_of(cb, reg.bb)
+            tests = sorted((lab, t[0], tuple(thru(pb, cb, t[1]) or ())) for _, _, lab, t in g)
+            rl = [c for c in cb.calls() if c.callee and c.callee.name == 'reloader']
+            want = sorted([('sw:1', 'discr', (me, '1')), ('sw:1', 'discr', ('call@bb%d' % rl[0].bb,) if rl else ())])
+            ok = tests == want and common.inevitable(cb, g, reg.bb)
+            why = 'registration must happen exactly when this load returned dependencies and the cache has a reloader; conditions found: %s' % tests
+        if ok:
+            a = [thru(pb, cb, x) for x in reg.args]
+            ok = a[0] == ['call@bb%d' % rl[0].bb, 'as:Some', '0'] and a[2] == [me, '1', 'as:Some', '0'] and a[3] == ['arg3'] \
+                and bool(a[1]) and a[1][0].startswith('call@') and path_is_id(pb, a[1]) \
+                and deep(pb, ld.args[2]) == ['arg3'] and path_is_id(pb, deep(pb, ld.args[1]), clone=True)
+            why = 'add_asset must receive (the id being loaded, the dependencies returned by this load_and_record, the type being loaded); got %s' % a[1:]
+        R2.check(ok, cfg, pb.path, 'stored-load-registers-its-own-deps', 'RawCache::add_asset: %s' % why, reg.loc())
+    # (c) owned loads
+    ob = F.body('<T as anycache::Cache>::load_owned_entry')
+    if not ob:
+        R2.missing(cfg, 'Cache::load_owned_entry')
+        return
+    reg = [c for c in ob.calls() if c.callee and c.callee.best == 'hot_reloading::HotReloader::add_owned_asset']
+    ld = [c for c in ob.calls() if c.callee and c.callee.best == 'asset::load_and_record']
+    ok = len(reg) == 1 and len(ld) == 1
+    why = 'shape: one load_and_record and one add_owned_asset expected'
+    if ok:
+        reg, ld = reg[0], ld[0]
+        me = 'call@bb%d' % ld.bb
+        g = common.guards_of(ob, reg.bb)
+        after = ob.reachable([ld.bb])
+        tests = sorted((lab, t[0], tuple(deep(ob, t[1]) or ())) for sw, _, lab, t in g if sw in after)
+        r0 = deep(ob, reg.args[0]) or ['?']
+        rl = [c for c in ob.calls() if c.callee and c.callee.name == 'reloader' and 'call@bb%d' % c.bb == r0[0]]
+        want = sorted([('sw:0', 'discr', (me, '0')), ('sw:1', 'discr', (me, '1')), ('sw:1', 'discr', ('call@bb%d' % rl[0].bb,) if rl else ())])
+        # registering the node of a failed owned load as well is harmless (it is never reloaded, typ = None)
+        ok = tests in (want, want[1:]) and want[0][0] == 'sw:0' and common.inevitable(ob, [x for x in g if x[0] in after], reg.bb)
+        why = 'an owned load must register its node whenever it succeeded with dependencies in a cache with a reloader (and under no other condition); conditions found: %s' % tests
+        if ok:
+            a = [deep(ob, x) for x in reg.args]
+            ok = a[2] == [me, '1', 'as:Some', '0'] and a[3] == ['arg3'] and path_is_id(ob, a[1]) and deep(ob, ld.args[2]) == ['arg3'] \
+                and path_is_id(ob, deep(ob, ld.args[1]), clone=True)
+            why = 'add_owned_asset must receive (id, dependencies of this load, type); got %s' % a[1:]
+        if ok:
+            # the entry handed out is the one of this load (possibly re-wrapped: `Ok(entry?)`)
+            roots = ob.origins(0, passthrough=common.make_pt(common.TRY_BRANCH, r'FromResidual<.*>>::from_residual$'))
+            others = [r for r in roots if r[0] == 'call' and r[1] != ld.bb]
+            ok = ('call', ld.bb) in roots and not others
+            why = 'load_owned_entry must return the entry produced by load_and_record; it returns a value made from %s' % sorted(roots)
+    R2.check(ok, cfg, ob.path, 'owned-load-registers-its-own-deps', 'load_owned_entry: %s' % why, ob.loc())
+
+
+def path_is_id(b, ap, clone=False):
+    """`ap` names the SharedString built from the `id: &str` parameter (arg2), possibly cloned"""
+    if not ap or not ap[0].startswith('call@bb') or len(ap) != 1:
+        return False
+    site = [c for c in b.calls() if 'call@bb%d' % c.bb == ap[0]]
+    if len(site) != 1 or not site[0].callee:
+        return False
+    c = site[0]
+    if c.callee.best.endswith('as std::clone::Clone>::clone'):
+        inner = common.deep_path(b, c.args[0])
+        inner = [e for e in (inner or []) if e != '&']
+        return path_is_id(b, inner)
+    return c.callee.best == '<utils::string::SharedString as std::convert::From<&str>>::from' and common.deep_path(b, c.args[0]) == ['arg2']
 
 
 def r3(R3, cfg, F):
